@@ -14,7 +14,7 @@ from nmverif.worker import wal, wal_text
 PROPERTY = "C11"
 LEVEL = "exploration"
 SHARD_TIMEOUT = 900
-FLOORS = {"nontrivial": 5000,
+FLOORS = {"nontrivial": 12000,
           "observed": {"expected_site": 4, "routes": 2, "outcomes": 2}}
 RULE = ("G-scope documents (see C10: let / with wrappers, plain and rec sets nested to depth 4, "
         "inherit clauses, the same names bound at several levels or nowhere, chains and cycles, "
@@ -255,6 +255,109 @@ def mutate_structure(rng, prog, live):
     return (what, path, name, new)
 
 
+def scenario_plan(rng, prog):
+    """Pick a reference whose defining binding is an integer in the root set, in a nested set
+    reachable by nima's paths, or in a let layer directly around the root set; plan its removal
+    and, half of the time, a re-addition (with the very same value text, or another one)."""
+    root = prog.root
+    n_layers = 0
+    for fr in reversed(root.wrappers):
+        if fr.kind != "let":
+            break
+        n_layers += 1
+    cands = []
+    for q in ref_queries(prog):
+        if through_with(prog, q):
+            continue
+        site = S.defining_site(prog, q)
+        if site[0] != "site" or not isinstance(site[1].get(site[2]), int):
+            continue
+        b, name = site[1], site[2]
+        where = None
+        for d in range(1, n_layers + 1):
+            if root.wrappers[-d].bindings is b:
+                where = ("layer", d)
+        for p_ in set_paths(prog):
+            if _setexpr_at(prog, p_).bindings is b and not through_with(prog, p_ + ["x"]):
+                where = ("set", p_)
+        if where is not None:
+            cands.append((q, b, name, where))
+    if not cands:
+        return None
+    q, b, name, where = rng.choice(cands)
+    spelled = ("@" * where[1] + name) if where[0] == "layer" else ".".join(where[1] + [name])
+    readd = None
+    if rng.random() < 0.5 and not (where[0] == "layer" and len(b) == 1):
+        readd = rng.choice(["same", "new"])
+    return {"path": q, "site": (b, name), "where": where, "spelled": spelled, "readd": readd}
+
+
+def mutate_structure_cli(rng, prog, live):
+    """Like mutate_structure, through set_value / remove_value of the same live document, including
+    scoped paths (@name) on the let layers directly around the root set."""
+    root = prog.root
+    n_layers = 0
+    for fr in reversed(root.wrappers):
+        if fr.kind != "let":
+            break
+        n_layers += 1
+    choices = []
+    for p in set_paths(prog):
+        if through_with(prog, p + ["x"]):
+            continue
+        tgt = _setexpr_at(prog, p)
+        for n in S.NAMES:
+            v = tgt.bindings.get(n)
+            if isinstance(v, int):
+                choices.append(("rm", ".".join(p + [n]), ("set", p, n)))
+            elif n not in tgt.bindings:
+                choices.append(("set", ".".join(p + [n]), ("set", p, n)))
+    for d in range(1, n_layers + 1):
+        fr = root.wrappers[-d]
+        for n in S.NAMES:
+            v = fr.bindings.get(n)
+            if isinstance(v, int):
+                choices.append(("rm", "@" * d + n, ("layer", d, n)))
+            elif n not in fr.bindings:
+                choices.append(("set", "@" * d + n, ("layer", d, n)))
+    if n_layers == 0 and not any(k in root.bindings for k in S.NAMES[:1]):
+        # `set @name v` on a set without let layer creates one (unless name is a body attribute)
+        for n in S.NAMES:
+            if n not in root.bindings:
+                choices.append(("set", "@" + n, ("new-layer", 1, n)))
+    if not choices:
+        return None
+    # names that some reference of the document mentions matter most: removing / adding them
+    # changes what the next write-through has to hit
+    mentioned = {parent_set(prog, q).bindings[q[-1]].name for q in ref_queries(prog)}
+    weighted = [c for c in choices for _ in range(5 if c[2][2] in mentioned else 1)]
+    kind, npath, where = rng.choice(weighted)
+    new = S.uid() if kind == "set" else None
+    r = live.apply(E.Op(kind, npath, str(new) if new is not None else "", "structural"))
+    if r.out is None:
+        return ("skip",)
+    if where[0] == "set":
+        tgt = _setexpr_at(prog, where[1])
+        if kind == "rm":
+            del tgt.bindings[where[2]]
+        else:
+            tgt.bindings[where[2]] = new
+    elif where[0] == "layer":
+        fr = root.wrappers[-where[1]]
+        if kind == "rm":
+            del fr.bindings[where[2]]
+            if not fr.bindings:
+                del root.wrappers[len(root.wrappers) - where[1]]
+        else:
+            fr.bindings[where[2]] = new
+    else:
+        root.wrappers.append(S.Frame("let", {where[2]: new}))
+    prog.text = S.render(prog)
+    if tokens(r.out) != tokens(prog.text):
+        return ("skip",)   # mis-rendered structural edits are C05 / C09's subject
+    return ("cli-" + kind, npath, where[2], new)
+
+
 def _setexpr_at(prog, path):
     cur = prog.root
     for k in path:
@@ -277,7 +380,7 @@ def ref_queries(prog):
 
 def plan(tier, seed):
     n_shards = 16 if tier == "quick" else 64
-    n = 900 if tier == "quick" else 6000
+    n = 2200 if tier == "quick" else 9000
     return [{"seed": seed * 6007 + i * 15485863 + 29, "n": n, "uid_base": 200000000 + (i + 1) * 1000000}
             for i in range(n_shards)]
 
@@ -309,11 +412,49 @@ def run_shard(spec):
             B.record(res, {"effect": "parse-raised", "exc": type(exc).__name__}, {"text": prog.text}, str(exc)[:200])
             continue
         trail = []
+        # scenario histories: write through one reference, unbind (and maybe re-add) the binding that
+        # defined it through nima's own rm / set, write through the same reference again
+        plan = None
+        if history and route == "cli" and rng.random() < 0.45:
+            plan = scenario_plan(rng, prog)
+            if plan is not None:
+                steps = 2
+                B.bump(obs["kinds"], "scenario-write-unbind-write")
         for step in range(steps):
-            if step and route == "api" and rng.random() < 0.5:
-                # between two write-throughs: add or delete a binding that may shadow a name, through
-                # the mapping API of the same live document (the next write must see the new scoping)
-                m = mutate_structure(rng, prog, live)
+            if plan is not None and step == 1:
+                name_ = plan["site"][1]
+                # (the model object was replaced by the committed copy: find the site again by position)
+                if plan["where"][0] == "layer":
+                    if plan["where"][1] > len(prog.root.wrappers):
+                        break
+                    b_ = prog.root.wrappers[-plan["where"][1]].bindings
+                else:
+                    b_ = _setexpr_at(prog, plan["where"][1]).bindings
+                old_val = b_.get(name_)
+                r_ = live.apply(E.Op("rm", plan["spelled"], "", "structural"))
+                if r_.out is None or not isinstance(old_val, int):
+                    break
+                del b_[name_]
+                trail.append({"route": "mutate", "what": "cli-rm", "path": plan["spelled"], "name": name_, "new": None})
+                if plan["where"][0] == "layer" and not b_:
+                    idx = next(i for i, fr in enumerate(prog.root.wrappers) if fr.bindings is b_)
+                    del prog.root.wrappers[idx]
+                if plan["readd"]:
+                    val = old_val if plan["readd"] == "same" else S.uid()
+                    r_ = live.apply(E.Op("set", plan["spelled"], str(val), "structural"))
+                    if r_.out is None:
+                        break
+                    b_[name_] = val
+                    trail.append({"route": "mutate", "what": "cli-set", "path": plan["spelled"], "name": name_, "new": val})
+                prog.text = S.render(prog)
+                if tokens(live.text) != tokens(prog.text):
+                    break
+            elif plan is None and step and rng.random() < 0.5:
+                # between two write-throughs: add or delete a binding that may shadow or unbind a
+                # name - through the mapping API (api histories) or through nima's own set / rm,
+                # also on the let layers around the root set (cli histories); the next write must
+                # see the new scoping
+                m = mutate_structure(rng, prog, live) if route == "api" else mutate_structure_cli(rng, prog, live)
                 if m is None:
                     pass
                 elif m[0] == "skip":
@@ -325,6 +466,10 @@ def run_shard(spec):
             if not qs:
                 break
             path = rng.choice(qs)
+            if plan is not None:
+                if plan["path"] not in qs:
+                    break
+                path = plan["path"]
             new = S.uid()
             text_before = S.render(prog)
             wal(f"{route} {'.'.join(path)} {new}")
@@ -450,6 +595,10 @@ def replay(case):
     live = E.LiveDoc(case["text"])
     outs = []
     for st in case["trail"]:
+        if st["route"] == "mutate" and str(st["what"]).startswith("cli-"):
+            r = live.apply(E.Op(st["what"][4:], st["path"], str(st["new"]) if st["new"] is not None else "", "structural"))
+            outs.append("cli structural: " + repr(r.out)[:300])
+            continue
         if st["route"] == "mutate":
             v = live.source
             for k in st["path"]:
